@@ -92,7 +92,9 @@ func PVariants() []PVariant {
 		}
 	}
 	body := func(n int) []byte { return bytes.Repeat([]byte("x"), n) }
-	names := map[string]string{"bad": "t$", "long": strings.Repeat("a", 65), "empty": "", "ephonly": "#ephemeral", "ephx": "t#ephemeralx", "max64": strings.Repeat("b", 64)}
+	names := map[string]string{"bad": "t$", "long": strings.Repeat("a", 65), "empty": "", "ephonly": "#ephemeral", "ephx": "t#ephemeralx", "max64": strings.Repeat("b", 64),
+		// the 64-byte limit counts the #ephemeral suffix: 54+10 is the longest legal one
+		"eph64": strings.Repeat("c", 54) + "#ephemeral", "eph65": strings.Repeat("c", 55) + "#ephemeral", "eph74": strings.Repeat("c", 64) + "#ephemeral"}
 
 	// ---- IDENTIFY
 	ident := func(name string, js string, ok bool) {
@@ -190,7 +192,11 @@ func PVariants() []PVariant {
 	for k, n := range names {
 		if k != "max64" && k != "empty" {
 			n := n
-			add("PUB badtopic:"+k, cat([]byte("PUB "+n+"\n"), frameBody(body(1))), func(s *pstate) pexp { return fatal("E_BAD_TOPIC") })
+			if validName(n) {
+				add("PUB edgetopic:"+k, cat([]byte("PUB "+n+"\n"), frameBody(body(1))), pubOK(n, 1))
+			} else {
+				add("PUB badtopic:"+k, cat([]byte("PUB "+n+"\n"), frameBody(body(1))), func(s *pstate) pexp { return fatal("E_BAD_TOPIC") })
+			}
 		}
 	}
 	vs = append(vs, PVariant{Name: "PUB t truncated", bytes: cat([]byte("PUB t\n"), sized(10, body(3))), half: true, expect: func(s *pstate) pexp { return fatal("E_BAD_MESSAGE") }})
